@@ -109,6 +109,26 @@ CHECKS['C05'] = dict(
          'Spy = thin subclass of the real in-memory / file / S3 cassette.',
     technique='Hypothesis-generated programs x exhaustive fault/crash-point placement; invariant over a spy-cassette log')
 
+CHECKS['C18'] = dict(
+    engine='progsim', category='fault_enumeration', design='DESIGN.md 3 C18',
+    text='Hypothesis-generated programs x every termination mode (return / ordinary exception / BaseException) at every '
+         'step incl. inside intercepted bodies x extractors that succeed, raise or return junk x instance/class-level, '
+         'on in-memory/file/S3 cassettes; the saved metadata read back through the cassette is compared with a model '
+         'computed from the harness journal (class, duration bounds, timestamp window, incomplete and exception flags, '
+         'user keys, default skip-incomplete lookup).',
+    note='Duration/timestamp clauses use the same clocks as the recorder with a 2 ms tolerance and bracket them between '
+         'harness-measured instants (time inside the operation body <= duration <= time until save is invoked).',
+    technique='Hypothesis-generated programs x exhaustive termination-point placement against a journal model')
+CHECKS['C17'] = dict(
+    engine='spy cassettes', category='exploration', design='DESIGN.md 3 C17',
+    text='Exhaustive decision table (1080 rows: skipped x rate x forcing origin x ignore-forcing x discard origin x '
+         'outcome x operation kind) observed at a spy cassette; long seeded histories at fractional rates (same seed '
+         'twice, paired histories differing only in content/outcome, 5-sigma kept-fraction bound); Hypothesis-generated '
+         'mixed-class histories (forcing must not leak); S3 size-based calculator observed as bucket writes.',
+    note='The oracle states the policy (and seed reproducibility / content independence) without mirroring the '
+         'generator draw by draw. Fixed seeds make the statistical bound deterministic on an unchanged tree.',
+    technique='exhaustive decision-table enumeration + seeded history metamorphic tests + Hypothesis generated histories')
+
 ENGINES = [
     ('progsim', 'pbt/progsim.py', 'program simulator: JSON program descriptions -> real decorated classes, undecorated '
                                   'twin, journals, fault injection, program strategies', ['C01', 'C02', 'C03', 'C04',
